@@ -43,16 +43,12 @@ CFG = {
                     "derived signals / MappedSignal / Signal::derive are plain closures without cache: they are from-scratch by construction and are not separately modelled"],
     "manifest": {
         "category": "proof",
-        "text": "Lean 4 theorem C01_read_eq_scratch: for EVERY well-formed program of signals, memos AND effects (effects may write signals; any polling order; pause/resume/dispose) with tracked reads (any DAG: diamonds, "
-                "chains, conditional/dynamic dependencies, equality cut-offs, memos read inside memos) and EVERY finite history of writes (equal values "
-                "included) and reads in any order, a read returns the from-scratch value - proved by an invariant over the mark-dirty/mark-check/pull "
-                "protocol (InvR) and a big-step lemma for update_if_necessary (upd_ok), ~2800 lines, no sorry, axioms propext/Classical.choice/Quot.sound. "
-                "The model is tied to the real ArcMemo/Memo/ArcRwSignal/RwSignal by a differential run on generated programs and histories (every read "
-                "compared with the model, with an independent from-scratch evaluator and with the 'last run is current' oracle). Programs with untracked "
-                "reads (snapshot semantics) and graphs that also contain effects are covered by the correspondence; their theorem is still open "
-                "(statement visible as C01_read_eq_scratch_stmt).",
+        "text": (
+            'Lean 4 theorems over the reactive model (Model/Reactive.lean): C01_read_eq_scratch - for EVERY well-formed program of signals, memos AND effects (effects may write signals; any polling order; pause/resume/dispose) with tracked reads (any DAG: diamonds, chains, conditional/dynamic dependencies, equality cut-offs, memos read inside memos) and EVERY finite history of writes (equal values included) and reads in any order, a read returns the from-scratch value (invariant InvR over the mark-dirty/mark-check/pull protocol + big-step lemma upd_ok for update_if_necessary); C01_untracked_snapshot / C01_untracked_inert - a read made through untrack contributes the value it had when the computation last ran and never causes a re-run; C01_scratch_fuel_irrelevant. No sorry; axioms propext/Classical.choice/Quot.sound. '
+            "The model is tied to the real reactive_graph by a differential run on generated programs and histories: every read is compared with the compiled model, with an independent from-scratch evaluator and with the 'last run is current' oracle, through every handle family (Rw/Arc/split signals, Memo/ArcMemo and all their constructors), every accessor (get/with/read/..._untracked/try_*), wrappers (Signal, ArcSignal, derive, MappedSignal, MaybeSignal, MaybeProp), slices (create_slice family), custom comparators (argument contract checked) and Selector; wrappers/slices/comparators/Selector are desugared into model nodes by the Lean driver, so the theorems apply to the desugared program."
+        ),
         "design_ref": "DESIGN.md §7 C01",
-        "note": "hand-written model validated by correspondence on generated inputs; theorem restricted to tracked reads",
+        "note": "hand-written model validated by correspondence on generated inputs; desugaring of wrappers/slices/Selector lives in the driver (trusted)",
         "technique": "Lean 4 proof (invariant + induction over histories) + differential correspondence",
     },
 }
